@@ -79,6 +79,10 @@ def real_cases(menu, filters_index):
         dict(prefix=[], threads=[{"k": "store", "a": 5}, {"k": "store", "a": 6}, {"k": "query", "f": q["authorA_k30000"]}]),
         dict(prefix=[], threads=[{"k": "store", "a": 1}, {"k": "store", "a": 10}, {"k": "query", "f": q["ids1_10"]}]),
         dict(prefix=[{"k": "store", "a": 7}], threads=[{"k": "store", "a": 12}, {"k": "store", "a": 5}, {"k": "query", "f": q["tag_t_x"]}]),
+        # a deletion request racing with the foreign / own events it names (11 = B: own 2, foreign 1; 12, 13 = A: address x)
+        dict(prefix=[], threads=[{"k": "store", "a": 1}, {"k": "store", "a": 11}, {"k": "get", "a": 1}]),
+        dict(prefix=[{"k": "store", "a": 2}], threads=[{"k": "store", "a": 1}, {"k": "store", "a": 11}, {"k": "query", "f": q["ids1_2"]}]),
+        dict(prefix=[], threads=[{"k": "store", "a": 5}, {"k": "store", "a": 12}, {"k": "get", "a": 5}]),
     ]
 
 
